@@ -14,7 +14,9 @@
   * `Routine` mirrors those classes; `runUW` / `runMW` give every node the semantics of its class's
     `__call__`, built from the very helpers `Model/Denote.lean` uses, and spend fuel at the same
     positions as `um` / `mar`.
-  * `adequate d env T r` is the validator: a decidable simulation between an annotation and a tree.
+  * `adequate d K env T r` is the validator: a decidable simulation between an annotation and a tree
+    (`K`: the admissible targets of `Delayed` nodes — any annotation for a single tree, the keys of
+    the graph for `graphOk`).
     `Props/C05.lean` proves it sound (`adequate … = true → run r = um T` on *every* input), the
     harness evaluates it on the tree extracted from the real library for every generated program.
 
@@ -118,7 +120,9 @@ inductive Routine
   | struct (c : Nat) (fields : List (Str × Routine)) (required : List Str)
   /-- `Delayed{Unm,M}arshaller`; `t` is what `refs.evaluate(node.t)` returns. -/
   | delayed (t : Ty)
-  /-- A routine object of any other class / with attributes outside the universe U. -/
+  /-- A routine object of any other class / with attributes outside the universe U (the routines of
+      unparameterised containers `CastUnmarshaller[list]`, `IterableMarshaller`, …, iterators, a
+      `Delayed` proxy whose reference resolves to no annotation of U). Adequate for nothing. -/
   | unknown (tag : Str)
   deriving Inhabited
 
